@@ -21,9 +21,9 @@ from .shared import CROP
 
 LEVEL = "other"
 CLAIM = {
-    "text": ("The generator is abstractly interpreted over scheduler x mode x batch-state (18 configurations, exhaustive): per configuration the concatenated template, the definite key set of the format dictionary and "
+    "text": ("The generator is abstractly interpreted over scheduler x mode x batch-state (24 configurations, exhaustive; batch states: explicit ids, fresh crop, partly grown with a non-contiguous missing set, partly grown with the leading batches missing -- comparisons over the crop's batch state are decided on these representative states by the analyser's own evaluator): per configuration the concatenated template, the definite key set of the format dictionary and "
              "a representative literal per field are derived. Decided: (R2) every {field} is a definite key; (R3) the embedded program between the here-doc markers is valid Python for every configuration, also after the PBS size-1 rewrite; "
-             "(R4) index mapping -- array mode grows `$TASK` with header range [1, num_batches] or `batch_ids[$TASK - 1]` with header range [1, len(batch_ids)], single mode calls crop.grow(batch_ids) with the explicit ids or the dynamic "
+             "(R4) index mapping -- in array mode the id expression of the embedded grow(...) is evaluated for every task index of the header range and the multiset of grown ids must equal the intended ids (all batches, the explicit ids, or the missing ones), no index out of range; single mode calls crop.grow(batch_ids) with the explicit ids or the dynamic "
              "crop.missing_results(); task variable, directive prefix and array flag match the scheduler table; (R5) the embedded program's imports and calls resolve against the current signatures; (R6) shebang first, here-doc opener and a "
              "terminator that cannot occur inside the program (thorough: bash -n on every script); (R7) the console entry point resolves and reaches Crop.grow_missing with kwargs the enumerator accepts; (R8) missing_results / progress listings never count "
              "a leftover temporary; (R9) the pooled grow() used by array scripts keeps the batch order. Not decided: scheduler behaviour, actually running the jobs."),
